@@ -57,6 +57,9 @@ type RunOpts struct {
 	Args    []string // flags and input path
 	Env     []string // extra environment (KEY=VALUE), on top of the offline Go env
 	Timeout time.Duration
+	// StdoutTo, if set, is a path opened for writing and given to the tool as its standard output
+	// (e.g. /dev/full: every write fails); RunResult.Stdout stays empty then.
+	StdoutTo string
 }
 
 // Run starts the tool once.
@@ -72,6 +75,14 @@ func (t *Tool) Run(o RunOpts) *RunResult {
 	cmd.Env = GoEnv(o.Env...)
 	var so, se bytes.Buffer
 	cmd.Stdout = &so
+	if o.StdoutTo != "" {
+		f, err := os.OpenFile(o.StdoutTo, os.O_WRONLY, 0)
+		if err != nil {
+			Machinery("cannot open %s as standard output: %v", o.StdoutTo, err)
+		}
+		defer f.Close()
+		cmd.Stdout = f
+	}
 	cmd.Stderr = &se
 	start := time.Now()
 	err := cmd.Run()
